@@ -97,13 +97,26 @@ fn check_expansion(ctx: &Ctx, periods: &[(usize, u32)], what: &str) -> u64 {
     hash64(&got)
 }
 
+/// the single value of the one-value daily schedule: a stand-by fraction with three decimals
+const SINGLE_DAY_VALUE: &str = "0.004";
+/// written hourly values: one, two, three and four decimals in turn
+fn day_value_text(h: usize, i: usize) -> String {
+    let k = (h * 37 + i * 11) % 1000;
+    match h % 4 {
+        0 => format!("{:.1}", k as f32 / 1000.0),
+        1 => format!("{:.2}", k as f32 / 1000.0),
+        2 => format!("{:.3}", k as f32 / 1000.0),
+        _ => format!("{:.4}", k as f32 / 1000.0 + 0.0004),
+    }
+}
+
 fn bdl_schedule_doc(ends: &[u32], week_names: &[&str], days7: &[usize], day_single: bool) -> String {
     let mut s = String::new();
     for i in 0..3 {
         if day_single && i == 0 {
-            s += &format!("\"D{i}\" = DAY-SCHEDULE-PD\n  TYPE  = FRACTION\n  VALUES  = ( 0.5)\n  ..\n");
+            s += &format!("\"D{i}\" = DAY-SCHEDULE-PD\n  TYPE  = FRACTION\n  VALUES  = ( {})\n  ..\n", SINGLE_DAY_VALUE);
         } else {
-            let vals: Vec<String> = (0..24).map(|h| format!("{}", (h + i) as f32 / 10.0)).collect();
+            let vals: Vec<String> = (0..24).map(|h| day_value_text(h, i)).collect();
             s += &format!("\"D{i}\" = DAY-SCHEDULE-PD\n  TYPE  = FRACTION\n  VALUES  = ( {})\n  ..\n", vals.join(", "));
         }
     }
@@ -150,8 +163,20 @@ fn check_conversion(ctx: &Ctx, ends: &[u32], days7: &[usize], day_single: bool) 
     }
     if day_single {
         if let Some(d) = m.schedules.day.iter().find(|d| d.name == "D0") {
-            if d.values.iter().any(|v| *v != 0.5) {
-                ctx.violation("conversion:day-single-value", "single-value daily schedule not expanded to 24 equal values", case());
+            let v0: f32 = SINGLE_DAY_VALUE.parse().unwrap();
+            if d.values.iter().any(|v| *v != v0) {
+                ctx.violation("conversion:day-single-value", "single-value daily schedule not expanded to 24 values equal to the written one", case());
+            }
+        }
+    }
+    for i in 0..3usize {
+        if day_single && i == 0 {
+            continue;
+        }
+        if let Some(d) = m.schedules.day.iter().find(|d| d.name == format!("D{i}")) {
+            let exp: Vec<f32> = (0..24).map(|h| day_value_text(h, i).parse().unwrap()).collect();
+            if d.values != exp {
+                ctx.violation("conversion:day-values", &format!("daily schedule D{} carries {:?}, the file says {:?}", i, d.values, exp), case());
             }
         }
     }
